@@ -107,6 +107,10 @@ func (env *SpecEnv) lookup(name string) (Val, bool) {
 				if v, ok := vars[o]; ok {
 					return v, true
 				}
+				if v, ok := st.vars[o]; ok {
+					// a local that did not exist in the old state: old(x) = x
+					return v, true
+				}
 				if o.Pkg() != nil && o.Parent() == o.Pkg().Scope() {
 					return st.globalVal(o), true
 				}
@@ -344,6 +348,9 @@ func (env *SpecEnv) index(base, idx Val, n *SNode) Val {
 	}
 	switch base.K {
 	case KSlice:
+		if base.Heap != nil {
+			return st.loadElem(base.Heap, base, idx.S)
+		}
 		return st.loadElem(env.heapMap(), base, idx.S)
 	case KString:
 		return vInt(base.at(idx.S), types.Typ[types.Uint8])
@@ -523,7 +530,13 @@ func (env *SpecEnv) evalCall(n *SNode) Val {
 	}
 	switch n.Text {
 	case "old":
-		return env.inOld().eval(n.Args[0])
+		oe := env.inOld()
+		v := oe.eval(n.Args[0])
+		if v.K == KSlice && v.Heap == nil {
+			// old(slice) denotes the slice with its old content, also when passed on to spec functions
+			v.Heap = oe.heapMap()
+		}
+		return v
 	case "len":
 		v := env.eval(n.Args[0])
 		switch v.K {
@@ -549,6 +562,9 @@ func (env *SpecEnv) evalCall(n *SNode) Val {
 		b := env.eval(n.Args[2])
 		if a.K == KBool {
 			return vBool(sIte(c, a.S, b.S))
+		}
+		if a.K == KRaw {
+			return vRaw(sIte(c, a.S, b.S), a.Sort)
 		}
 		r := a
 		r.S = sIte(c, numVal(a), numVal(b))
@@ -618,6 +634,29 @@ func (env *SpecEnv) evalCall(n *SNode) Val {
 			return vBool(sAnd(sEq(a.arr(), b.arr()), sEq(a.off(), b.off()), sEq(a.length(), b.length())))
 		}
 		env.fail("sameSeq on unsupported values")
+	case "has":
+		m := env.eval(n.Args[0])
+		k := env.eval(n.Args[1])
+		if m.T == nil || classify(m.T) != tcMap {
+			env.fail("has needs a map")
+		}
+		_, present := st.mapLookupIn(env.heapMap(), m, m.T, k)
+		return vBool(present)
+	case "idseq":
+		st.fc.V.addPrelude("g_idseq", "(declare-fun g_idseq () (Array Int Int))", "(assert (forall ((k Int)) (! (= (select g_idseq k) k) :pattern ((select g_idseq k)))))")
+		return vRaw("g_idseq", "(Array Int Int)")
+	case "anyseq":
+		return vRaw(st.fc.fresh("seq", "(Array Int Int)"), "(Array Int Int)")
+	case "swapseq":
+		a := env.eval(n.Args[0])
+		i := env.eval(n.Args[1]).S
+		j := env.eval(n.Args[2]).S
+		return vRaw(sStore(sStore(a.S, i, sSel(a.S, j)), j, sSel(a.S, i)), a.Sort)
+	case "store":
+		a := env.eval(n.Args[0])
+		i := env.eval(n.Args[1])
+		v := env.eval(n.Args[2])
+		return vRaw(sStore(a.S, i.S, numVal(v)), a.Sort)
 	case "ispow2":
 		st.fc.V.ispow2Prelude()
 		return vBool(sApp("g_ispow2", env.eval(n.Args[0]).S))
@@ -687,6 +726,28 @@ func (env *SpecEnv) evalCall(n *SNode) Val {
 			parts = append(parts, fmt.Sprintf("(forall ((%s Int)) (! (=> (< %s %s) (= (select %s %s) (select %s %s))) :pattern ((select %s %s))))", v, v, st.fc.entryAlloc(), cur, v, old, v, cur, v))
 		}
 		return vBool(sAnd(parts...))
+	case "frameOnly":
+		// nothing that existed at function entry has changed except cells x[0:cap(x)] of x's array
+		sv := env.eval(n.Args[0])
+		if sv.K != KSlice {
+			env.fail("frameOnly needs a slice")
+		}
+		et := sliceElemType(sv.T)
+		var parts []string
+		oe := env.inOld()
+		for _, c := range flatComps(et) {
+			cur := st.heapIn(env.heapMap(), elemHeapName(et, c), elemSort(c))
+			old := st.heapIn(oe.heapMap(), elemHeapName(et, c), elemSort(c))
+			if cur == old {
+				continue
+			}
+			*env.qcount++
+			v := fmt.Sprintf("g_q_fr_%d", *env.qcount)
+			parts = append(parts, fmt.Sprintf("(forall ((%s Int)) (! (=> (and (< %s %s) (not (= %s %s))) (= (select %s %s) (select %s %s))) :pattern ((select %s %s))))", v, v, st.fc.entryAlloc(), v, sv.arr(), cur, v, old, v, cur, v))
+			parts = append(parts, fmt.Sprintf("(forall ((%s Int)) (! (=> (not (and (<= %s %s) (< %s %s))) (= (select (select %s %s) %s) (select (select %s %s) %s))) :pattern ((select (select %s %s) %s))))",
+				v, sv.off(), v, v, sAdd(sv.off(), sv.capa()), cur, sv.arr(), v, old, sv.arr(), v, cur, sv.arr(), v))
+		}
+		return vBool(sAnd(parts...))
 	case "unchangedOutside":
 		// cells of s's backing array outside s[lo:hi] have their old() values (absolute-index form, E-matching friendly)
 		sv := env.eval(n.Args[0])
@@ -717,7 +778,7 @@ func (env *SpecEnv) evalCall(n *SNode) Val {
 	}
 	// function-valued parameter / variable applied in a spec
 	if v, ok := env.lookup(n.Text); ok && v.K == KFunc && v.Fn != nil && v.Fn.Sym != "" {
-		return st.applyFuncVal(v, args())
+		return st.applyFuncValMode(v, args(), true)
 	}
 	// user spec function
 	if sf := env.findSpec(n.Text); sf != nil {
